@@ -140,6 +140,9 @@ func (x *Exec) callContract(st *State, con *Contract, callee *ssa.Function, args
 	}
 	pre := x.envFor(st, nil, con.Pkg, vars)
 	for i, cl := range con.Requires {
+		if cl.Assumed {
+			continue
+		}
 		lab := cl.Label
 		if lab == "" {
 			lab = fmt.Sprintf("%d", i+1)
@@ -165,8 +168,8 @@ func (x *Exec) callContract(st *State, con *Contract, callee *ssa.Function, args
 		preHeap[m.key] = x.heapName(st, m.key)
 	}
 	for _, m := range mods {
-		// the callee's effects must lie within the caller's frame
-		x.frameCheck(st, m.key, m.ptr, site)
+		// the callee's effects must lie within the caller's frame (a location reached through a nil pointer does not exist)
+		x.frameCheckNilOK(st, m.key, m.ptr, site)
 		n := x.declConst(st, "hv", cx.heapSort[m.key])
 		x.heapSet(st, m.key, m.ptr, n)
 	}
@@ -288,6 +291,14 @@ func (x *Exec) evalMod(st *State, m string, vars map[string]Val, con *Contract) 
 			return []modEntry{{key: k, ptr: cur.S}}
 		}
 		nv := Val{S: fmt.Sprintf("(select %s %s)", env.heap(k), cur.S), T: ft}
+		if i > 1 {
+			// reached through a pointer field that may be nil: nothing is reachable through nil
+			if _, isRef := ft.Underlying().(*types.Pointer); isRef {
+				nv.S = fmt.Sprintf("(ite (= %s %s) %s %s)", cur.S, cx.num(0), cx.num(0), nv.S)
+			} else if _, isMap := ft.Underlying().(*types.Map); isMap {
+				nv.S = fmt.Sprintf("(ite (= %s %s) %s %s)", cur.S, cx.num(0), cx.num(0), nv.S)
+			}
+		}
 		if mapAll {
 			mt, ok := ft.Underlying().(*types.Map)
 			if !ok {
@@ -355,6 +366,15 @@ func (x *Exec) modKeys(callee *ssa.Function, m string, keys map[string]bool) {
 }
 
 func (x *Exec) typeContractMods(f *ssa.Function, cc *ssa.CallCommon, keys map[string]bool) {
+	if cc.IsInvoke() && cc.Method.Pkg() != nil {
+		slot := ifaceSlots[cc.Method.Pkg().Name()+"."+cc.Method.Name()]
+		if con, callee := x.w.Contracts[slot], x.w.Funcs[slot]; con != nil && callee != nil {
+			for _, m := range con.Modifies {
+				x.modKeys(callee, m, keys)
+			}
+			return
+		}
+	}
 	if !cc.IsInvoke() {
 		pv := x.prov(f, cc.Value, 0)
 		switch pv.key {
@@ -374,8 +394,21 @@ func (x *Exec) typeContractMods(f *ssa.Function, cc *ssa.CallCommon, keys map[st
 	panic(unsupported("call through interface / function value inside a loop needs a type contract"))
 }
 
+// callInterface: a dynamically dispatched method call uses the interface method's type contract (ifacecontract); every
+// implementation inside the repository is checked to conform to it (implObligations), foreign ones are assumed to.
 func (x *Exec) callInterface(st *State, cc *ssa.CallCommon, recv Val, args []Val, setResult func(Val), site string) {
-	panic(unsupported("interface method call " + cc.Method.Name() + " at " + site))
+	cx := x.cx
+	mk := ""
+	if cc.Method.Pkg() != nil {
+		mk = cc.Method.Pkg().Name() + "." + cc.Method.Name()
+	}
+	slot := ifaceSlots[mk]
+	con, fn := x.w.Contracts[slot], x.w.Funcs[slot]
+	if slot == "" || con == nil || fn == nil {
+		panic(unsupported("interface method call " + cc.Method.Name() + " at " + site + " (declare an ifacecontract)"))
+	}
+	x.check(st, "safe:nil@"+site, fmt.Sprintf("(not (= (if_tag %s) %s))", recv.S, cx.num(0)), site)
+	setResult(x.callContract(st, con, fn, append([]Val{recv}, args...), nil, site))
 }
 
 func (x *Exec) callFuncValue(st *State, cc *ssa.CallCommon, fv Val, args []Val, setResult func(Val), site string) {
@@ -650,9 +683,9 @@ func (x *Exec) conforms(fk, sk string) (bool, string) {
 		}
 		return false
 	}
-	for _, cl := range append(append([]*Clause{}, sc.Requires...), sc.Ensures...) {
+	for _, cl := range sc.Ensures {
 		if cl.Group == "" {
-			return false, "slot contract " + sk + " has clauses outside clause groups"
+			return false, "slot contract " + sk + " has postconditions outside clause groups"
 		}
 	}
 	for _, g := range sc.Groups {
@@ -661,6 +694,9 @@ func (x *Exec) conforms(fk, sk string) (bool, string) {
 		}
 	}
 	for _, cl := range fc.Requires {
+		if cl.Assumed {
+			continue
+		}
 		if !in(cl.Group, sc.Groups) {
 			return false, fk + " has a precondition [" + cl.Label + "] that " + sk + " does not guarantee"
 		}
@@ -1015,7 +1051,11 @@ func (x *Exec) atCallChecks(st *State, short string, seq int, calleeVars map[str
 		return
 	}
 	for i, cl := range x.con.AtCalls {
-		if cl.Callee != short && cl.Callee != "*" {
+		callee := cl.Callee
+		if i := strings.Index(callee, ":"); i > 0 {
+			callee = callee[i+1:]
+		}
+		if callee != short && callee != "*" {
 			continue
 		}
 		lab := cl.Label
